@@ -25,3 +25,6 @@ def run(chk):
     from . import state_contracts
     state_contracts.lookup_faithful(chk)
     state_contracts.merge_all_pages(chk)
+    from . import wrapper_contracts, batcher
+    wrapper_contracts.wrapper_obligations(chk, "C01", want=("C01",))
+    batcher.check_consumer(chk, "C01")
